@@ -25,6 +25,9 @@ BYTE_ALPHABET = [39, 34, 92, 10, 97, 0, 13, 9, 127, 128, 255, 110, 120, 32]
 SMALL_BYTES = [39, 34, 92, 10, 97, 0, 13, 255, 110]
 
 
+ACTS = ['skip', 'skip', 'xfail', 'xfail', 'uxsuccess', 'failure', 'error', 'interrupt']
+
+
 def render_name(n):
     base = {0: 'Failed expectation', 1: 'traceback'}.get(n[0], 'd%d' % n[0])
     return base if n[1] == 0 else '%s-%d' % (base, n[1])
@@ -47,7 +50,8 @@ class C07(Prop):
             'ill-formed messages, x annotated x verbose), 35% text_repr inputs (str and bytes over an adversarial alphabet: '
             'quotes, backslash, newlines, controls, Latin-1, Z/C categories, astral, lone surrogate; multiline None/True/False), '
             '20% assertThat/assert_that/expectThat programs (pre-existing detail names that collide with the mismatch details / '
-            '"Failed expectation"). thorough adds every str of length <= 4 over a 12-character alphabet and every bytes of '
+            '"Failed expectation"; after the call the test body, tearDown and 0-3 cleanups return / skip / raise an expected failure / an '
+            'unexpected success / a failure / an error / KeyboardInterrupt). thorough adds every str of length <= 4 over a 12-character alphabet and every bytes of '
             'length <= 4 over 9 bytes, x 3 multiline settings. non-trivial: describe = a mismatch was returned; text_repr = the '
             'text contains a quote, backslash, newline or non-printable; assert = a mismatch with details or existing details')
     assumptions = [
@@ -56,7 +60,7 @@ class C07(Prop):
         'pyRepr / pyEval are models of CPython repr() and of string-literal evaluation, validated against repr / ast.literal_eval on every text_repr input; str.isprintable for code points >= 128 is an input of the model',
         'MatchesSetwise: messages naming left-over matchers are built inside match(); the model only accounts for them through the str() table',
         'detail names of the harness have no "-<digits>" tail, so that name-<n> is rendered injectively',
-        'the end-of-run outcome (force_failure => failure) is a three-line model of RunTest; the full run model belongs to C01-C05',
+        'the end of the run (exceptions collected from body / tearDown / cleanups, forced failure appended last, _select_exception) is a small model of RunTest._run_core restricted to one exception per stage; the full run model belongs to C01-C05',
     ]
 
     manifest = {
@@ -68,7 +72,7 @@ class C07(Prop):
                 'extracted from the tree on every run, unset Mismatch._description, %-formatting arity), str(matcher), describe(), get_details() and '
                 'str(MismatchError) (verbose or not, annotated or not) succeed for every stock matcher expression of any depth and every value; a well-formed MatchesPredicate returns its Mismatch for every matchee, tuples included. '
                 'C07_assertThat_iff / C07_expectThat / C07_details_nonclobbering - assertThat and assert_that raise MismatchError iff match() returned a '
-                'mismatch; expectThat never raises, forces the failure; details are attached under fresh names (pigeonhole proof for addDetailUniqueName). '
+                'mismatch; expectThat never raises and forces the failure: C07_expectThat_fails - after an expectThat mismatch the run is reported with addFailure whatever the rest of the body, tearDown and any number of cleanups do (return, skip, expected failure, unexpected success, failure, error), and with addError + re-raise when a stage raised KeyboardInterrupt - never success/skip/expected failure/unexpected success (selectExn_forced: the forced AssertionError is appended last and _select_exception prefers the last non-benign exception); details are attached under fresh names (pigeonhole proof for addDetailUniqueName). '
                 'Tied to the code by a differential check (real str()/describe()/MismatchError, text_repr vs ast.literal_eval, real TestCase runs).',
         'note': 'no finding class left (MatchesPredicate formats a tuple matchee as one value since the fix); repr/pformat/%-formatting of values assumed total; describe() of opaque-leaf mismatches tested, not proved; pyRepr/pyEval are models of '
                 'CPython validated against repr/ast.literal_eval; the end-of-run outcome is a three-line model of RunTest',
@@ -205,9 +209,27 @@ class C07(Prop):
         from testtools.content import text_content
         from testtools.matchers import Mismatch, MismatchError
         from testtools.testresult.doubles import ExtendedTestResult
-        _, api, existing, mm = inp
+        api, existing, mm = inp[1:4]
+        after, td, cleanups = (inp[4], inp[5], inp[6]) if len(inp) > 4 else ('ret', 'ret', [])
         names = None if mm is None else mm[1]
         obs = {'raised': False, 'continued': False, 'names': None, 'ff': None}
+
+        def do(case, act):
+            """what a stage of the test does after the call under test"""
+            if act == 'skip':
+                case.skipTest('optional dependency missing')
+            elif act == 'xfail':
+                case.expectFailure('known bug', case.assertEqual, 1, 0)
+            elif act == 'uxsuccess':
+                case.expectFailure('known bug', case.assertEqual, 1, 1)
+            elif act == 'failure':
+                case.fail('plain failure')
+            elif act == 'error':
+                raise ValueError('plain error')
+            elif act == 'interrupt':
+                e = KeyboardInterrupt()
+                e.verif_generated = True
+                raise e
 
         class Mis(Mismatch):
             def describe(self):
@@ -224,7 +246,13 @@ class C07(Prop):
                 return 'DM()'
 
         class T(testtools.TestCase):
+            def tearDown(self):
+                super().tearDown()
+                do(self, td)
+
             def test_it(self):
+                for c in cleanups:
+                    self.addCleanup(do, self, c)
                 for n in existing:
                     self.addDetail(render_name(n), text_content('pre-existing'))
                 try:
@@ -241,17 +269,25 @@ class C07(Prop):
                 finally:
                     obs['names'] = [parse_name(k) for k in self.getDetails()]
                     obs['ff'] = bool(getattr(self, 'force_failure', None))
+                do(self, after)
         res = ExtendedTestResult()
-        T('test_it').run(res)
+        propagated = False
+        try:
+            T('test_it').run(res)
+        except KeyboardInterrupt as e:
+            if not getattr(e, 'verif_generated', False):
+                raise
+            propagated = True
         kinds = [e[0] for e in res._events if e[0].startswith('add')]
-        outcome = {'addSuccess': 'success', 'addFailure': 'failure', 'addError': 'error'}.get(kinds[0] if len(kinds) == 1 else '', 'other')
+        outcome = {'addSuccess': 'success', 'addFailure': 'failure', 'addError': 'error', 'addSkip': 'skip',
+                   'addExpectedFailure': 'xfail', 'addUnexpectedSuccess': 'uxsuccess'}.get(kinds[0] if len(kinds) == 1 else '', 'other')
         # the details reported with the outcome still contain every name seen right after the call
         if kinds and len(res._events) >= 2:
             ev = [e for e in res._events if e[0].startswith('add')][0]
             reported = ev[2] if len(ev) > 2 and isinstance(ev[2], dict) else {}
             if outcome != 'success' and not all(render_name(n) in reported for n in obs['names']):
                 outcome = 'details-lost'
-        return ['assert', obs['raised'], obs['continued'], obs['names'], obs['ff'], outcome]
+        return ['assert', obs['raised'], obs['continued'], obs['names'], obs['ff'], outcome, propagated]
 
     def run_impl(self, inp):
         try:
@@ -288,7 +324,12 @@ class C07(Prop):
             existing = [[b, s] for b in rng.sample([0, 2, 3], rng.randint(1, 3)) for s in range(rng.randint(1, 3))]
             rng.shuffle(existing)
         mm = None if rng.random() < 0.25 else ['some', rng.sample([2, 3, 4], rng.choice([0, 1, 1, 2, 3]))]
-        return ['assert', api, existing, mm]
+        if rng.random() < 0.35:
+            return ['assert', api, existing, mm, 'ret', 'ret', []]
+        # the test goes on after the call: rest of the body, tearDown, cleanups (registered in this order, run LIFO)
+        act = lambda: rng.choice(ACTS) if rng.random() < 0.45 else 'ret'
+        cleanups = [act() for _ in range(rng.choice([0, 0, 1, 1, 2, 3]))]
+        return ['assert', api, existing, mm, act(), act(), cleanups]
 
     def gen_describe(self, rng):
         g = C6.Gen(rng, P6)
@@ -339,7 +380,7 @@ class C07(Prop):
             return trace[0] == 'describe' and trace[2] == 'mismatch'
         if inp[0] == 'textrepr':
             return any(c in (39, 34, 92, 10) or c < 32 or c > 126 for c in inp[4])
-        return bool(inp[2]) or (inp[3] is not None and bool(inp[3][1]))
+        return bool(inp[2]) or (inp[3] is not None and bool(inp[3][1])) or (len(inp) > 4 and (inp[4] != 'ret' or inp[5] != 'ret' or bool(inp[6])))
 
     def features(self, inp, trace):
         f = ['kind:' + inp[0]]
@@ -367,6 +408,10 @@ class C07(Prop):
                 f.append('has:nonprintable>=128')
         else:
             f += ['api:' + inp[1], 'existing=%d' % min(len(inp[2]), 4), 'mismatch:' + ('none' if inp[3] is None else 'details=%d' % len(inp[3][1]))]
+            if len(inp) > 4:
+                f += ['after:' + inp[4], 'tearDown:' + inp[5], 'cleanups=%d' % len(inp[6])] + sorted({'cleanup:' + c for c in inp[6]})
+                if inp[1] == 'expectThat' and inp[3] is not None and any(a in ('skip', 'xfail') for a in [inp[4], inp[5]] + inp[6]):
+                    f.append('failed-expectation-then-skip/xfail')
             if ok:
                 f.append('outcome:' + str(trace[5]))
                 if any(n[1] > 0 for n in trace[3][len(inp[2]):]):
@@ -394,12 +439,21 @@ class C07(Prop):
                 yield ['describe', inp[1], inp[2], inp[3], False]
         else:
             ex = inp[2]
+            tail = list(inp[4:]) if len(inp) > 4 else ['ret', 'ret', []]
+            if len(inp) > 4:
+                after, td, cs = tail
+                for i in range(len(cs)):
+                    yield ['assert', inp[1], ex, inp[3], after, td, cs[:i] + cs[i + 1:]]
+                if td != 'ret':
+                    yield ['assert', inp[1], ex, inp[3], after, 'ret', cs]
+                if after != 'ret':
+                    yield ['assert', inp[1], ex, inp[3], 'ret', td, cs]
             for i in range(len(ex)):
-                yield ['assert', inp[1], ex[:i] + ex[i + 1:], inp[3]]
+                yield ['assert', inp[1], ex[:i] + ex[i + 1:], inp[3]] + tail
             if inp[3] is not None:
                 ds = inp[3][1]
                 for i in range(len(ds)):
-                    yield ['assert', inp[1], ex, ['some', ds[:i] + ds[i + 1:]]]
+                    yield ['assert', inp[1], ex, ['some', ds[:i] + ds[i + 1:]]] + tail
 
 
 PROP = C07()
